@@ -1047,6 +1047,8 @@ def reward_formula(val, U, m):
 
 
 def run(ctx, chk):
+    shared.rule_single_use_iterators(ctx, chk, "C15.0:iter", shared.GENERATOR_MODULES)      # a zip / map / filter walked twice: the second check sees nothing
+    shared.rule_no_module_level_iterators(ctx, chk, "C15.0:iter", shared.GENERATOR_MODULES)
     shared.rule_mutable_defaults(ctx, chk, "C15.0:defaults", shared.GENERATOR_MODULES)      # a call must not depend on the calls made before it
     r1_ranges(ctx, chk)
     r2_order(ctx, chk)
